@@ -17,6 +17,8 @@ def sh(*a, **k):
 def one(sid, checks, tier):
     sdir = os.path.join(VERIF, "seeded", sid)
     meta = json.load(open(os.path.join(sdir, "meta.json")))
+    if meta.get("obsolete"):
+        return sid, [{"check": "-", "detected": True, "clauses": ["obsolete: " + meta["obsolete"]["reason"][:90]]}]
     wt = os.path.join(SCRATCH, sid)
     out = wt + ".out"
     shutil.rmtree(out, ignore_errors=True)
@@ -62,8 +64,9 @@ def main():
         for sid, res in ex.map(lambda s: one(s, checks, tier), ids):
             mp = os.path.join(VERIF, "seeded", sid, "meta.json")
             meta = json.load(open(mp))
-            old = [d for d in meta.get("detected_by", []) if isinstance(d, dict) and not any(d.get("check") == r.get("check") and d.get("tier") == r.get("tier") for r in res)]
-            meta["detected_by"] = old + res
+            if not meta.get("obsolete"):
+                old = [d for d in meta.get("detected_by", []) if isinstance(d, dict) and not any(d.get("check") == r.get("check") and d.get("tier") == r.get("tier") for r in res)]
+                meta["detected_by"] = old + res
             json.dump(meta, open(mp, "w"), indent=1)
             for r in res:
                 ok = r.get("detected")
